@@ -6,11 +6,16 @@ from typing import (
     AsyncIterator,
     Awaitable,
     Callable,
+    Iterable,
+    List,
     MutableMapping,
+    Sequence,
+    Tuple,
 )
 
 from ..concurrency import run_in_threadpool
 from ..datastructures import Headers
+from ..responses import unfold_header_lines
 from ..typing import ASGIApp, Scope, Receive, Send, Message
 from .requests import Request
 from .responses import Response, StreamingResponse
@@ -55,6 +60,12 @@ class NextResponse(StreamingResponse):
     This is a response object for middleware.
     """
 
+    # the header lines of the application, as they were before `Headers` folded them
+    raw_headers: Sequence[Tuple[str, str]] = ()
+
+    def header_lines(self) -> Iterable[Tuple[str, str]]:
+        return unfold_header_lines(self.headers, self.raw_headers)
+
     async def render_stream(self) -> AsyncGenerator[bytes, None]:
         async for chunk in self.iterable:
             yield chunk
@@ -65,27 +76,27 @@ class NextResponse(StreamingResponse):
         This is a helper method to convert a ASGI application into a NextResponse object.
         """
         status_code = 200
-        headers = Headers()
+        raw_headers: List[Tuple[str, str]] = []
         body = CachedStream()
 
         async def send(message: Message) -> None:
             nonlocal status_code
-            nonlocal headers
+            nonlocal raw_headers
             if message["type"] == "http.response.start":
                 status_code = message["status"]
-                headers = Headers(
-                    [
-                        (k.decode("latin-1"), v.decode("latin-1"))
-                        for k, v in message.get("headers", [])
-                    ]
-                )
+                raw_headers = [
+                    (k.decode("latin-1"), v.decode("latin-1"))
+                    for k, v in message.get("headers", [])
+                ]
             elif message["type"] == "http.response.body":
                 await body.push(message.get("body", b""))
                 if not message.get("more_body", False):
                     await body.push_eof()
 
         await app(request, request._receive, send)
-        return NextResponse(body, status_code, headers)
+        response = NextResponse(body, status_code, Headers(raw_headers))
+        response.raw_headers = raw_headers
+        return response
 
 
 def middleware(
